@@ -1,7 +1,7 @@
 #!/usr/bin/env python3
 """Manage seeded breakages.
   seeded.py confirm <worktree> <name>   re-confirm an agent's change in its scratch worktree and store it under /verif/seeded/<name>/
-  seeded.py run <name> [tier] [modes]   apply /verif/seeded/<name>/patch.diff to /repo, run the property's check, undo, record the outcome
+  seeded.py run <name> [tier] [modes] [property]   apply /verif/seeded/<name>/patch.diff to /repo, run the property's check, undo, record the outcome
   seeded.py runall                      run every stored change against its property's quick check (native mode only)
 """
 import sys, os, json, subprocess, shutil, time
@@ -60,10 +60,12 @@ def confirm(wt, name):
         json.dump(meta, open(os.path.join(dst, "meta.json"), "w"), indent=1)
     return ok
 
-def run(name, tier="quick", modes="native"):
+def run(name, tier="quick", modes="native", prop=None):
     dst = os.path.join(V, "seeded", name)
     meta = json.load(open(os.path.join(dst, "meta.json")))
-    pid = meta.get("property") or name.split("_")[0]
+    pid = prop or meta.get("caught_by_property") or meta.get("property") or name.split("_")[0]
+    if prop:
+        meta["caught_by_property"] = prop
     rc, out = sh(["git", "status", "--porcelain"], cwd=REPO)
     assert out.strip() == "", "/repo not clean: " + out
     rc, out = sh(["git", "apply", os.path.join(dst, "patch.diff")], cwd=REPO)
